@@ -143,6 +143,17 @@ CLAIMED = {
    note="Whole-loop 'valid implies bytes hash to the TARGET index checksum' combines the step theorem with disjoint extents and equal "
         "checksum types; that combination is evaluated by the predicate on real files, not proved. Source immutability is checked on files.",
    technique="Lean 4 proof (list-slice algebra for writes at offsets, induction over the target chunk list) + differential correspondence"),
+ 'C12': dict(
+   text="PARTIAL proof (Lean 4), for EVERY fault schedule (short counts, EINTR, hard errors at any system call): in the model of src/lib/io.c, "
+        "write_data reports success only if exactly the given bytes are in the file at the descriptor's offset (one retry of the remainder "
+        "after a short write), and read_data returns only bytes that are in the file at the offset, in order and without gaps, leaving the "
+        "file unchanged. chunks_from_temp is modelled and corresponded. The call sites above io.c and the tools are not theorems: whole "
+        "scenarios (read, validate good/damaged files, write with none/zstd/dictionary, copy chunks; zck, unzck -c, unzck --header) are run "
+        "with the k-th read/write/lseek failing once for every k x {EIO, ENOSPC, EINTR, short count} and judged against the fault-free result.",
+   design_ref="DESIGN.md section 7 C12",
+   note="Partial: scenario level is fault enumeration (single faults, exhaustive in k), not proof; faults are injected by -Wl,--wrap in the "
+        "harness and by an LD_PRELOAD shim for the tools; errno-specific behaviour beyond EINTR is not distinguished.",
+   technique="Lean 4 proof (case analysis over fault outcomes, write-append lemma, induction over the read loop) + exhaustive single-fault injection as search and correspondence"),
 }
 
 NOT_YET = "machinery for this property is not built yet in this snapshot (work in progress; see DESIGN.md section 11 build order)"
